@@ -960,7 +960,7 @@ func (s *syncer) firstHeader() uint32 {
 // ---------------------------------------------------------------------------
 // Stage 2 (MPT mode): trie nodes.
 
-var nodeFaults = []string{"bit-flip", "truncated", "hash-node-of-requested-hash", "empty-node", "other-trie", "garbage"}
+var nodeFaults = []string{"bit-flip", "truncated", "hash-node-of-requested-hash", "empty-node", "other-trie", "garbage", "child-inlined", "child-inlined"}
 
 func (s *syncer) badNode(kind string, need []util.Uint256) []byte {
 	target := need[s.r.Intn(len(need))]
@@ -976,6 +976,49 @@ func (s *syncer) badNode(kind string, need []util.Uint256) []byte {
 		return append([]byte{byte(mpt.HashT)}, target.BytesBE()...)
 	case "empty-node":
 		return []byte{byte(mpt.EmptyT)}
+	case "child-inlined":
+		// the requested branch / extension node with one child written out in full
+		// instead of by its hash: the same content, the same node hash, another
+		// (non-canonical) form - the child would never be asked for
+		for _, h := range need {
+			raw := s.td.nodes[h]
+			if len(raw) == 0 {
+				continue
+			}
+			var at []int // offsets of hash children
+			switch mpt.NodeType(raw[0]) {
+			case mpt.BranchT:
+				off := 1
+				for off < len(raw) {
+					if mpt.NodeType(raw[off]) == mpt.HashT && off+33 <= len(raw) {
+						at = append(at, off)
+						off += 33
+					} else {
+						off++
+					}
+				}
+			case mpt.ExtensionT:
+				if len(raw) > 34 && mpt.NodeType(raw[len(raw)-33]) == mpt.HashT {
+					at = append(at, len(raw)-33)
+				}
+			}
+			if len(at) == 0 {
+				continue
+			}
+			off := at[s.r.Intn(len(at))]
+			ch, err := util.Uint256DecodeBytesBE(raw[off+1 : off+33])
+			if err != nil {
+				continue
+			}
+			child, ok := s.td.nodes[ch]
+			if !ok {
+				continue
+			}
+			out := append([]byte{}, raw[:off]...)
+			out = append(out, child...)
+			return append(out, raw[off+33:]...)
+		}
+		return nil
 	case "other-trie":
 		for range 20 {
 			h := s.alt.list[s.r.Intn(len(s.alt.list))]
